@@ -16,7 +16,7 @@ use vcore::{
     rng::fnv1a,
 };
 
-use crate::{Case, index, model};
+use crate::{Case, bgz, index, model};
 
 const SEQ_ALPHA: &[u8] = b"ACGTACGTACGTNacgtnRYKMSWBDHV*-";
 
@@ -104,6 +104,24 @@ pub fn run_fasta_rt(ctx: &Ctx, idx: u64, c: &Case, o: &mut CaseOut) {
         }
     };
     o.count("fasta_files_written", 1);
+    // sinks that take 1 / 7 bytes per call; then the same records plus >= 200 kB of long ones through
+    // the bgzf writer(s), whose write() accepts only what fits into the current block
+    bgz::fasta_short_writes(&records, w, &bytes, o);
+    // (empty sequences cannot be indexed; they stay covered by the plain pass above)
+    let mut big: Vec<fasta::Record> = records.iter().filter(|r| !r.sequence().is_empty()).cloned().collect();
+    big.extend(bgz::big_fasta_records(&mut rng));
+    let bigc = big.clone();
+    let plain_big = guard::catch(move || -> std::io::Result<Vec<u8>> {
+        let mut wr = fasta::io::writer::Builder::default().set_line_base_count(NonZero::new(w).unwrap()).build_from_writer(Vec::new());
+        for r in &bigc {
+            wr.write_record(r)?;
+        }
+        Ok(wr.into_inner())
+    });
+    let mut bgz_evals = 0;
+    if let Ok(Ok(plain_big)) = plain_big {
+        bgz_evals = bgz::fasta_through_bgzf(&big, w, &plain_big, idx % 4 == 0, &mut rng, o);
+    }
     // text-level: no line longer than the configured width
     // observed, not judged: the statement only demands equality after reading back
     let too_long = bytes.split(|&b| b == b'\n').any(|l| !l.starts_with(b">") && l.len() > w);
@@ -193,8 +211,8 @@ pub fn run_fasta_rt(ctx: &Ctx, idx: u64, c: &Case, o: &mut CaseOut) {
             o.count("indexer_rejects", st.indexer_rejects);
         }
     }
-    let _ = (ctx, idx);
-    o.evaluations = evals.max(1);
+    let _ = ctx;
+    o.evaluations = (evals + bgz_evals).max(1);
     let wclass = if w <= 4 { 0 } else if w <= 80 { 1 } else if w <= 200 { 2 } else { 3 };
     o.fp = fnv1a(format!("fasta-rt|{wclass}|{any_empty}").as_bytes());
 }
@@ -337,6 +355,14 @@ pub fn run_fastq(ctx: &Ctx, idx: u64, c: &Case, o: &mut CaseOut) {
     }
     let mut bytes = sink.0.lock().unwrap().clone();
     o.count("fastq_files_written", 1);
+    bgz::fastq_short_writes(&records, sep, &bytes, o);
+    let mut big = records.clone();
+    for (i, len) in [70_001usize, 65_280, 66_123].into_iter().enumerate() {
+        let seq: Vec<u8> = (0..len).map(|_| b"ACGTN"[rng.usize_below(5)]).collect();
+        let qual: Vec<u8> = (0..len).map(|_| b'!' + rng.below(94) as u8).collect();
+        big.push(fastq::Record::new(fastq::record::Definition::new(format!("long{i}"), if i == 1 { "" } else { "a long read" }), seq, qual));
+    }
+    let bgz_evals = bgz::fastq_through_bgzf(&big, o);
     o.count("fastq_quality_lines_starting_with_at_or_plus", special_quals);
     let mut evals = 0u64;
     let cap = *rng.pick(&[1usize, 2, 3, 7, 64]);
@@ -395,7 +421,7 @@ pub fn run_fastq(ctx: &Ctx, idx: u64, c: &Case, o: &mut CaseOut) {
             // an empty last quality line without terminator is not a line any more
             o.count("fastq_index_naive_parse_skipped", 1);
             let _ = e;
-            o.evaluations = evals.max(1);
+            o.evaluations = (evals + bgz_evals).max(1);
             o.fp = fnv1a(format!("fastq|{}|{}|skipped", c.crlf, c.no_final_newline).as_bytes());
             return;
         }
@@ -454,6 +480,6 @@ pub fn run_fastq(ctx: &Ctx, idx: u64, c: &Case, o: &mut CaseOut) {
             }
         }
     }
-    o.evaluations = evals.max(1);
+    o.evaluations = (evals + bgz_evals).max(1);
     o.fp = fnv1a(format!("fastq|{}|{}|{}|{}", c.crlf, c.no_final_newline, sep, c.fs).as_bytes());
 }
